@@ -217,7 +217,42 @@ def run(prog: Program) -> Results:
                         break
                     cur = pm.get(cur)
                 search = None
+                # index produced by a search expression: next((i for i, x in enumerate(C) if <test on x>)[, None])
+                via_next = None
                 if loop is None:
+                    from sa.seqbuild import _rev as _rv2
+                    for a_ in ast.walk(f.node):
+                        v_ = a_.value if isinstance(a_, (ast.Assign, ast.NamedExpr)) else None
+                        is_t = (isinstance(a_, ast.Assign) and any(norm(t_) == idx.id for t_ in a_.targets)) or (isinstance(a_, ast.NamedExpr) and norm(a_.target) == idx.id)
+                        if v_ is not None and is_t and isinstance(v_, ast.Call) and callee(v_) == "next" and v_.args and isinstance(v_.args[0], ast.GeneratorExp):
+                            g_ = v_.args[0].generators[0]
+                            if isinstance(g_.iter, ast.Call) and callee(g_.iter) == "enumerate" and isinstance(g_.target, ast.Tuple) \
+                                    and norm(v_.args[0].elt) == norm(g_.target.elts[0]):
+                                via_next = (a_, v_, g_)
+                if via_next is not None:
+                    a_, v_, g_ = via_next
+                    elem_id = norm(g_.target.elts[1]) if len(g_.target.elts) > 1 else None
+                    tested = bool(g_.ifs) and any(isinstance(x, ast.Name) and x.id == elem_id for c_ in g_.ifs for x in ast.walk(c_))
+                    same = norm(_rv2(g_.iter)[0]) == cont
+                    stores_ = [x for x in ast.walk(f.node) if isinstance(x, ast.Name) and x.id == idx.id and isinstance(x.ctx, ast.Store)]
+                    guarded_none = len(v_.args) == 1  # no default: a miss raises StopIteration, never reaches the deletion
+                    if not guarded_none:
+                        from sa.cfg import CFG as _C2, edges_establishing as _ee2
+                        c2 = _C2(f.node)
+                        e2 = _ee2(c2, lambda at_, tr_: (norm(at_) == f"{idx.id} is not None" and tr_ is True))
+                        dn = c2.containing(t) if not isinstance(m.node, ast.Delete) else c2.node_of(m.node)
+                        dn = dn or c2.containing(m.node)
+                        guarded_none = bool(e2) and dn is not None and c2.all_paths_pass(dn, cut_edges=e2)
+                    if not same:
+                        why = (f"`{idx.id}` indexes `{norm(_rv2(g_.iter)[0])}` but the deletion is from `{cont}`: the two lists are "
+                               f"not index-aligned (attrpath families occupy one entry in values and several in the order)")
+                    elif not (tested and guarded_none and len(stores_) == 1):
+                        why = f"`{idx.id}` comes from a search that may find nothing, or does not test the element it selects"
+                    else:
+                        ok = True
+                elif loop is None:
+                    pass
+                if loop is None and via_next is None:
                     # search-then-delete: `for i, x in enumerate(C): if <test on x>: break` / `else: raise|return`, deletion after the loop
                     for cand in ast.walk(f.node):
                         if isinstance(cand, ast.For) and isinstance(cand.iter, ast.Call) and callee(cand.iter) == "enumerate" \
@@ -249,7 +284,7 @@ def run(prog: Program) -> Results:
                         ok = True
                 elif loop is None:
                     why = f"`{idx.id}` is not the index of an enclosing enumerate() loop"
-                elif norm(loop.iter.args[0]) != cont:
+                elif norm(__import__("sa.seqbuild", fromlist=["_rev"])._rev(loop.iter)[0]) != cont:
                     why = (f"`{idx.id}` indexes `{norm(loop.iter.args[0])}` but the deletion is from `{cont}`: the two lists are "
                            f"not index-aligned (attrpath families occupy one entry in values and several in the order)")
                 else:
@@ -426,6 +461,15 @@ def search_then_insert(prog: Program, res: Results, rid: str) -> None:
                     found.setdefault(tg.id, set()).add(norm(v.func.value))
         if not found:
             continue
+        # a searched local that is itself a filter over a container (`bindings = (b for b in self.values if …)`) stands for it
+        def _origin(txt, depth=0):
+            ds_ = [d_ for d_ in walk_no_nested(f.node) if isinstance(d_, ast.Assign) and len(d_.targets) == 1 and norm(d_.targets[0]) == txt]
+            if depth < 3 and len(ds_) == 1 and isinstance(ds_[0].value, (ast.GeneratorExp, ast.ListComp)):
+                from sa.seqbuild import _rev as _rv3
+                return _origin(norm(_rv3(ds_[0].value.generators[0].iter)[0]), depth + 1)
+            return txt
+
+        found = {x_: {_origin(t_) for t_ in ts_} for x_, ts_ in found.items()}
         cfg = _CFG(f.node)
         for x, searched in sorted(found.items()):
             # insertions that happen only where the search found nothing (`if x is None: …` or after `if x is not None: …; return`)
